@@ -57,12 +57,69 @@ pub fn oracle(l: &[GTx], out: &[RMatchT]) -> Option<String> {
     None
 }
 
+/// the same conservation law with every amount in its own currency (price/total and fees drawn
+/// independently from GBP, USD, EUR; bundled monthly rates): each amount counts at amount ÷ the rate of its
+/// own currency in its own month
+fn foreign_currency(ctx: &mut Ctx, cases: &[(String, Ledger)]) {
+    use cgt_core::{Currency, CurrencyAmount, Operation, Transaction};
+    use rust_decimal::Decimal;
+    let Ok(cache) = cgt_money::load_default_cache() else { ctx.ev.notes.push("bundled FX cache not loadable: foreign-currency ledgers not exercised".into()); return; };
+    let mut r = crate::rng::Rng::new(ctx.seed ^ 0xC03F);
+    let cfg = run_impl::config_from(&run_impl::wide_exemptions());
+    let codes = ["GBP", "USD", "EUR"];
+    let n = ctx.n(120, 6000) as usize;
+    for (name, l) in cases.iter().filter(|(_, l)| well_formed(l) && l.iter().all(|t| chrono::Datelike::year(&t.date) >= 2016 && chrono::Datelike::year(&t.date) <= 2024)).take(n) {
+        let rate = |code: &str, d: chrono::NaiveDate| -> Option<Q> { if code == "GBP" { Some(Q::int(1)) } else { cache.get(Currency::from_code(code)?, chrono::Datelike::year(&d), chrono::Datelike::month(&d)).map(|e| Q::from_dec(e.rate_per_gbp)) } };
+        let am = |x: Decimal, c: &str| CurrencyAmount::new(x, Currency::from_code(c).expect("code"));
+        let mut txs: Vec<Transaction> = Vec::new();
+        // per line: (price/total in GBP, fees in GBP)
+        let mut gbp: Vec<(Q, Q)> = Vec::new();
+        let mut ok = true;
+        let mut mixed = false;
+        for t in l {
+            let (pc, fc) = (*r.pick(&codes), *r.pick(&codes));
+            if pc != fc && pc != "GBP" && fc != "GBP" { mixed = true; }
+            let (Some(rp), Some(rf)) = (rate(pc, t.date), rate(fc, t.date)) else { ok = false; break };
+            let mut tx = t.to_tx();
+            match &mut tx.operation {
+                Operation::Buy { price, fees, .. } | Operation::Sell { price, fees, .. } => { *price = am(t.b, pc); *fees = am(t.c, fc); }
+                Operation::CapReturn { total_value, fees, .. } => { *total_value = am(t.b, pc); *fees = am(t.c, fc); }
+                Operation::Accumulation { total_value, tax_paid, .. } => { *total_value = am(t.b, pc); *tax_paid = am(t.c, fc); }
+                _ => {}
+            }
+            gbp.push((Q::from_dec(t.b).div(&rp), Q::from_dec(t.c).div(&rf)));
+            txs.push(tx);
+        }
+        if !ok { continue; }
+        let Ok(Ok(rep)) = std::panic::catch_unwind(std::panic::AssertUnwindSafe(|| cgt_core::calculator::calculate(&txs, None, Some(&cache), &cfg))) else { continue };
+        let rep = rep::from_report(&rep);
+        ctx.ev.evaluations += 1;
+        ctx.ev.count("foreign-currency-ledgers");
+        if mixed { ctx.ev.count("foreign-currency-ledgers:two-foreign-currencies-on-one-line"); }
+        let mut tickers: Vec<&str> = l.iter().map(|t| t.ticker.as_str()).collect();
+        tickers.sort(); tickers.dedup();
+        for tk in tickers {
+            let legs = Q::sum(rep.years.iter().flat_map(|y| y.disposals.iter()).filter(|d| d.ticker == tk).flat_map(|d| d.legs.iter().map(|x| &x.cost)));
+            let closing = rep.holdings.iter().find(|h| h.0 == tk).map(|h| h.2.clone()).unwrap_or_else(Q::zero);
+            let bought = Q::sum(l.iter().zip(&gbp).filter(|(t, _)| t.ticker == tk && t.kind == Kind::Buy).map(|(t, g)| Q::from_dec(t.a).mul(&g.0).add(&g.1)).collect::<Vec<_>>().iter());
+            let events = Q::sum(l.iter().zip(&gbp).filter(|(t, _)| t.ticker == tk && matches!(t.kind, Kind::Accumulation | Kind::CapReturn) && position_before(l, tk, t.date).is_pos()).map(|(t, g)| if t.kind == Kind::Accumulation { g.0.clone() } else { g.0.sub(&g.1).neg() }).collect::<Vec<_>>().iter());
+            let diff = legs.add(&closing).sub(&bought);
+            if !diff.close(&events, 12) {
+                let lines: Vec<String> = txs.iter().map(cgt_core::dsl::transaction_to_dsl).collect();
+                let what = format!("{tk}: legs' allowable cost + closing cost − purchases' cost (each amount at its own currency's rate for its month) = {} but the cost events that took effect sum to {}", diff.approx(), events.approx());
+                ctx.ev.violation("oracle", format!("foreign-currency ledger: {what}"), format!("# property C03\n# oracle (bundled monthly rates): {what}\n# case {name}\n{}\n", lines.join("\n")));
+                break;
+            }
+        }
+    }
+}
+
 pub fn run(ctx: &mut Ctx) {
     let prop = "C03";
     let cfg = GenCfg::standard();
     let n = ctx.n(700, 50_000);
     let cases = matcher_cases(prop, ctx, &cfg, n);
-    ctx.ev.rule = "corpus + fixtures + generated ledgers (fees on every trade, partial lots, same-day/30-day/pool mixes, splits, cost events while shares are held; plus two lots of very different unit cost followed by a capital return that exceeds the cheap lot's own cost per share). Oracle on the real matcher's full-precision output: per security Σ legs' allowable cost + closing cost − Σ (q·p + fees) = Σ signed cost events that took effect (events dated when the position, rescaled by earlier splits, was positive). Correspondence: costs of legs (per rule and acquisition date) and closing cost vs the Lean model. Known-finding class zeroQuantityBuyWithCost (D14) is probed with two fixed ledgers. Non-trivial = accepted ledger with ≥ 2 rules in use and a fee > 0, or an effective cost event; distinct by ledger text.".into();
+    ctx.ev.rule = "corpus + fixtures + generated ledgers (fees on every trade, partial lots, same-day/30-day/pool mixes, splits, cost events while shares are held; plus two lots of very different unit cost followed by a capital return that exceeds the cheap lot's own cost per share). Foreign-currency variants (price/total and fees of every line drawn independently from GBP/USD/EUR, bundled rates): the same law with each amount at its own currency's rate for its month. Oracle on the real matcher's full-precision output: per security Σ legs' allowable cost + closing cost − Σ (q·p + fees) = Σ signed cost events that took effect (events dated when the position, rescaled by earlier splits, was positive). Correspondence: costs of legs (per rule and acquisition date) and closing cost vs the Lean model. Known-finding class zeroQuantityBuyWithCost (D14) is probed with two fixed ledgers. Non-trivial = accepted ledger with ≥ 2 rules in use and a fee > 0, or an effective cost event; distinct by ledger text.".into();
     // known finding D14 (class zeroQuantityBuyWithCost): the ledgers below are not validator-clean, so the
     // theorems (which assume WellFormed) and the main loop skip them; `report` accepts them all the same
     {
@@ -110,6 +167,7 @@ pub fn run(ctx: &mut Ctx) {
             cases.push((format!("cheap-lot#{i}"), l));
         }
     }
+    foreign_currency(ctx, &cases);
     let mut cli_left: u32 = if ctx.tier == Tier::Quick { 8 } else { 80 };
     for (name, l) in cases {
         if cli_left > 0 && well_formed(&l) && l.len() >= 3 { cli_left -= 1; cli_crosscheck(ctx, prop, &l, None); }
